@@ -22,7 +22,7 @@ Definition GaveUp (s : sys) (x : inst) (xo : oinst) (c : Z) : Prop :=
   (maxr (cf x) <> 0 /\ maxr (cf x) <= restarts (vis_of s (nm x))).
 
 Record P2 (s : sys) (o : obs) (x : inst) (xo : oinst) : Prop := mkP2 {
-  p_commit : commit_pc (pc x) = true -> o_commit xo = true;
+  p_commit : W2 o = false -> commit_pc (pc x) = true -> o_commit xo = true;
   p_stop : W2 o = false -> o_stopreq xo = true -> commit_pc (pc x) = false;
   p_exited : forall c, exited x = Some c -> o_code xo = Some c /\ pc x = IAlive /\ alive x = false;
   p_alive : alive x = true -> pc x = IAlive;
